@@ -21,3 +21,6 @@ def run(ctx):
     base.run_correspondence(ctx, PROFILE, ctx.scale(300, 4000))
     scns = [TW.gen_c07(ctx.seed, i) for i in range(ctx.scale(500, 8000))]
     base.run_twin(ctx, "refit_vs_fresh", scns)
+    # clusters left without a row by the new data set (about as many clusters as rows, duplicates, mini-batch k-means)
+    orphan = [TW.gen_c07_orphan(ctx.seed, i) for i in range(ctx.scale(40, 600))]
+    base.run_twin(ctx, "refit_vs_fresh", orphan, shrink=False)
